@@ -430,7 +430,11 @@ type bScenario struct {
 func runBScenarios(t *testing.T, prop string, scs []bScenario) {
 	w := newWorker(t, prop)
 	defer w.finish()
+	only := os.Getenv("VERIF_ONLY") // development aid: run the scenarios whose name contains this
 	for i, sc := range scs {
+		if only != "" && !strings.Contains(sc.Name, only) {
+			continue
+		}
 		b := sc.Bound
 		if w.thorough() {
 			b = sc.BoundT
